@@ -891,7 +891,13 @@ class DefEval:
             return self.getattr_(fr, obj, e.attr, e)
         if isinstance(e, ast.Subscript):
             obj = self.expr(fr, e.value)
-            k = self.expr(fr, e.slice)
+            if isinstance(e.slice, ast.Slice):
+                lo = self.expr(fr, e.slice.lower) if e.slice.lower is not None else None
+                hi = self.expr(fr, e.slice.upper) if e.slice.upper is not None else None
+                st = self.expr(fr, e.slice.step) if e.slice.step is not None else None
+                k = slice(lo, hi, st)
+            else:
+                k = self.expr(fr, e.slice)
             try:
                 return obj[k]
             except Exception:
